@@ -1,4 +1,5 @@
 import AfqmcVerif.Lemmas.SingleDet
+import AfqmcVerif.Lemmas.AutoBra
 import AfqmcVerif.Lemmas.Estimator
 import AfqmcVerif.Lemmas.CisdOverlap
 import AfqmcVerif.Lemmas.UcisdOverlap
@@ -129,5 +130,42 @@ theorem cisd_thc_overlap_is_manybody {k v p : ℕ} (W : Matrix (Fin (k + v)) (Fi
     AfqmcVerif.Excite.thcCode W c1 Xo Xv V
       = AfqmcVerif.Excite.cisdSpec W c1 (AfqmcVerif.Excite.thcTensor Xo Xv V) :=
   AfqmcVerif.Excite.thc_overlap W c1 Xo Xv V hW h2
+
+/-! ## the common form of all overlaps -/
+
+/-- **every single-determinant overlap is a `bra`** (a linear combination of products of one minor of each walker block,
+here over pairs of increasing orbital strings with the conjugated trial minors as coefficients) — the class of functionals
+for which C02 / C03 / C13 prove their statements without looking at the trial's formulas.  Linear combinations of bras
+(NOCI, determinant lists, the CI expansions above) are bras again (`bra_add`, `bra_smul`). -/
+theorem uhf_overlap_is_bra (Ca : Matrix (Fin m) (Fin ka) K) (Cb : Matrix (Fin m) (Fin kb) K)
+    (Wa : Matrix (Fin m) (Fin ka) K) (Wb : Matrix (Fin m) (Fin kb) K) :
+    uhfOverlap Ca Cb Wa Wb
+      = AfqmcVerif.AutoBra.bra (ι := (Fin ka ↪o Fin m) × (Fin kb ↪o Fin m))
+          (fun p => star ((Ca.submatrix p.1 id).det) * star ((Cb.submatrix p.2 id).det))
+          (fun p => p.1) (fun p => p.2) Wa Wb := by
+  rw [uhf_overlap_is_manybody]
+  unfold slaterOverlap AfqmcVerif.AutoBra.bra
+  rw [Finset.sum_mul_sum, Fintype.sum_prod_type]
+  refine Finset.sum_congr rfl fun e _ => Finset.sum_congr rfl fun f _ => ?_
+  ring
+
+/-- sums of bras are bras (index type = disjoint union) -/
+theorem bra_add {ι κ : Type} [Fintype ι] [Fintype κ] (c : ι → K) (d : κ → K)
+    (ea : ι → Fin ka → Fin m) (eb : ι → Fin kb → Fin m) (fa : κ → Fin ka → Fin m) (fb : κ → Fin kb → Fin m)
+    (Wa : Matrix (Fin m) (Fin ka) K) (Wb : Matrix (Fin m) (Fin kb) K) :
+    AfqmcVerif.AutoBra.bra c ea eb Wa Wb + AfqmcVerif.AutoBra.bra d fa fb Wa Wb
+      = AfqmcVerif.AutoBra.bra (Sum.elim c d) (Sum.elim ea fa) (Sum.elim eb fb) Wa Wb := by
+  unfold AfqmcVerif.AutoBra.bra
+  rw [Fintype.sum_sum_type]
+  simp
+
+/-- scalar multiples of bras are bras -/
+theorem bra_smul {ι : Type} [Fintype ι] (a : K) (c : ι → K) (ea : ι → Fin ka → Fin m) (eb : ι → Fin kb → Fin m)
+    (Wa : Matrix (Fin m) (Fin ka) K) (Wb : Matrix (Fin m) (Fin kb) K) :
+    a * AfqmcVerif.AutoBra.bra c ea eb Wa Wb = AfqmcVerif.AutoBra.bra (fun i => a * c i) ea eb Wa Wb := by
+  unfold AfqmcVerif.AutoBra.bra
+  rw [Finset.mul_sum]
+  refine Finset.sum_congr rfl fun i _ => ?_
+  ring
 
 end AfqmcVerif.Props.C01
